@@ -985,10 +985,28 @@ impl fmt::Display for Type1<'_> {
 
     t1_str.push_str(&self.type2.to_string());
 
-    if let Type2::Typename { .. } = self.type2 {
-      if self.operator.is_some() {
-        t1_str.push(' ');
-      }
+    // The operator is set off by blanks unless both operands are literal
+    // values ("1..5"): next to a name, "." and ".." would be read as part of
+    // the identifier ("a.sizeb", "~a..b")
+    let is_literal = |t2: &Type2| {
+      matches!(
+        t2,
+        Type2::IntValue { .. }
+          | Type2::UintValue { .. }
+          | Type2::FloatValue { .. }
+          | Type2::TextValue { .. }
+          | Type2::UTF8ByteString { .. }
+          | Type2::B16ByteString { .. }
+          | Type2::B64ByteString { .. }
+      )
+    };
+    let spaced = self
+      .operator
+      .as_ref()
+      .is_some_and(|o| !(is_literal(&self.type2) && is_literal(&o.type2)));
+
+    if spaced {
+      t1_str.push(' ');
     }
 
     #[cfg(feature = "ast-comments")]
@@ -1003,7 +1021,7 @@ impl fmt::Display for Type1<'_> {
         t1_str.push_str(&comments.to_string());
       }
 
-      if let Type2::Typename { .. } = self.type2 {
+      if spaced {
         t1_str.push(' ');
       }
 
@@ -1018,7 +1036,7 @@ impl fmt::Display for Type1<'_> {
     if let Some(o) = &self.operator {
       t1_str.push_str(&o.operator.to_string());
 
-      if let Type2::Typename { .. } = self.type2 {
+      if spaced {
         t1_str.push(' ');
       }
 
